@@ -19,7 +19,8 @@ PROP = dict(
          "Tuner cases with f != 0",
     bounds=dict(
         quick="hilbert(x): every n in 3..512 + {1000,1023,1024,4095,4096} x 7 letters (const, alternating, 2 on-bin tones, off-bin tone, "
-              "tone+DC, LCG), every impulse for n <= 64; BIG: n in {4097, 65536, 65537 (prime), 100000} x 4 letters (real part in full, "
+              "tone+DC, LCG), every impulse for n <= 64; positive bins incl. DC and Nyquist (hilbert.posbins) for the same n x 5 letters "
+              "(const, alternating, off-bin tone, tone+DC, LCG); BIG: n in {4097, 65536, 65537 (prime), 100000} x 4 letters (real part in full, "
               "negative bins on a subset: 3 at either end, mirrors of the tone bins, 256 spread evenly) and hilbert(x,n') for (n,n') in "
               "{(100000,65536),(100000,65537),(4097,65537),(65536,100000)}; hilbert(x,n'): n in 3..32, every n' in 3..2n, 2 letters; "
               "HilbertFilter: flen {31,32,51,101,200,201,401} x tw {0.005,0.01,0.05,0.1}: response on the 0.0005 grid over "
@@ -37,7 +38,7 @@ PROP = dict(
               "incl. all-zero frames (real part delayed bit-exact, imaginary part against impz() convolved with the input in long "
               "double); Delay D {1,5,64,1000} x real/complex x 7 letters x 4 framings",
         thorough="hilbert(x): every n in 3..4096 x 7 letters (all negative bins), every n in 4097..8192: real part 7 letters, all negative "
-                 "bins 3 letters (alternating, off-bin tone, LCG) - i.e. every prime up to 8192; impulses: every position for n <= 512, "
+                 "bins 3 letters (alternating, off-bin tone, LCG) - i.e. every prime up to 8192; positive bins (hilbert.posbins) every n in 3..2048 + {4095,4096} x 5 letters; impulses: every position for n <= 512, "
                  "positions 1 and n-1 for every n <= 4096, additionally 0 and n/2 for every prime n; BIG: n in {4097, 8191, 8192, 16384, "
                  "32768, 65521, 65535, 65536, 65537, 100000, 131071, 131072} x 4 letters (1024-bin subset) and the quick n' pairs; "
                  "hilbert(x,n'): n in 3..160, every n' in 3..2n+1, and n in {255,256,257,509,512,1021,1024,2048} x n' in n-3..n+3, n/2, "
@@ -56,7 +57,10 @@ PROP = dict(
         "negative bins as max |H_k| against tol(n)*||X||_2 (the weaker, per-element reading of the DESIGN's bound) with "
         "tol(n) = max(1e-12, 64*n*eps): the flat 1e-12 of the DESIGN is tighter than the library's own fft accuracy contract "
         "(C01/C02: 32*n*eps per transform) for n > 70 and was met with only 2.2x margin at prime n ~ 1500",
-        "the statement fixes only real part and negative bins of the analytic signal; imaginary DC/Nyquist content is not checked",
+        "the statement's two clauses (real part, negative bins) leave the imaginary DC / Nyquist content of the result open; "
+        "hilbert.posbins additionally asserts the textbook analytic signal Z[0] = X[0], Z[k] = 2 X[k] (0 < k < n/2), Z[n/2] = X[n/2] "
+        "for even n - the DC / Nyquist weight-1 convention of the repaired tree (fix 2d80727, MATLAB's hilbert) - with the tolerance "
+        "of the negative-bin check; the other hilbert checks still judge real part and negative bins only",
         "for n > 8192 (cases marked BIG) the O(n^2) long-double DFT is evaluated on a subset of the negative bins only (both ends of "
         "the range, mirror images of the tone bins, 256/1024 evenly spread): less than the statement demands, never more",
         "Delay<T>(D) (include/dsplib/delay.h, the mechanism behind HilbertFilter's real part) is read as out[k] = x[k-D], zeros before",
